@@ -251,6 +251,35 @@ func c04jobs(harness string, tier string) []Job {
 }
 
 // c04bigJobs: groupings at the sizes where size-dependent strategies start (64-slot initial table from 128 rows)
+// c18seqJobs: one regex pattern used by like and ilike in turn (matcher level and Filter level)
+func c18seqJobs() []Job {
+	var jobs []Job
+	for _, pat := range []string{"a.c", "A[bx]"} {
+		for _, first := range []string{"true", "false"} {
+			jobs = append(jobs, Job{Harness: "VX_C18_regex_seq", Params: P("pattern", pat, "first", first)})
+		}
+	}
+	for _, pat := range []string{"a.c", "%b.", "a[bX]c%", "%B.%"} {
+		for _, first := range []string{"true", "false"} {
+			jobs = append(jobs, Job{Harness: "VX_C18_filter_seq", Params: P("pattern", pat, "first", first)})
+		}
+	}
+	return jobs
+}
+
+// c14rowCountJobs: ToJSON of frames whose row count is around 32, 64, 128, 256 (thorough: 512, 1024)
+func c14rowCountJobs(tier string) []Job {
+	var jobs []Job
+	ranges := [][2]string{{"31", "33"}, {"63", "65"}, {"127", "129"}, {"255", "257"}}
+	if tier == "thorough" {
+		ranges = append(ranges, [2]string{"511", "513"}, [2]string{"1023", "1025"}, [2]string{"99", "101"}, [2]string{"191", "193"})
+	}
+	for _, r := range ranges {
+		jobs = append(jobs, Job{Harness: "VX_C14_tojson", Params: P("shape", "big", "namelen", "0", "n", "1", "strlen", "1", "rowslo", r[0], "rowshi", r[1]), MaxSteps: 400000000})
+	}
+	return jobs
+}
+
 func c04bigJobs(tier string, strict bool) []Job {
 	var jobs []Job
 	sizes := [][3]string{{"130", "20", "13"}}
@@ -498,6 +527,7 @@ func init() {
 					jobs = append(jobs, Job{Harness: "VX_C09_equals", Params: P("skel", sk, "n", "2", "P", "2", "shared", "1")})
 				}
 			}
+			jobs = append(jobs, c14rowCountJobs(tier)...)
 			for _, c := range []string{"renamed", "reordered", "enum_vs_string", "float_vs_int", "fewer_cols", "fewer_rows"} {
 				jobs = append(jobs, Job{Harness: "VX_C09_mismatch", Params: P("case", c)})
 			}
@@ -730,11 +760,7 @@ func init() {
 					jobs = append(jobs, Job{Harness: "VX_C18_regex", Params: P("cs", cs, "pattern", pat, "nc", "2")})
 				}
 			}
-			for _, pat := range []string{"a.c", "A[bx]"} {
-				for _, first := range []string{"true", "false"} {
-					jobs = append(jobs, Job{Harness: "VX_C18_regex_seq", Params: P("pattern", pat, "first", first)})
-				}
-			}
+			jobs = append(jobs, c18seqJobs()...)
 			for _, cmp := range []string{"like", "ilike"} {
 				for _, pat := range []string{"b", "%b", "b%", "%b%", "B", "%", "b.", "%(", ""} {
 					jobs = append(jobs, Job{Harness: "VX_C18_columns", Params: P("cmp", cmp, "pattern", pat)})
@@ -886,8 +912,10 @@ func init() {
 			jobs = append(jobs, Job{Harness: "VX_C14_tojson", Params: P("shape", "empty", "namelen", "0", "n", "0", "strlen", "1")})
 			jobs = append(jobs, Job{Harness: "VX_C14_tojson", Params: P("shape", "concrete", "namelen", "0", "n", "1", "strlen", "1"), MaxSteps: 50000000})
 			jobs = append(jobs, Job{Harness: "VX_C14_tojson", Params: P("shape", "digits", "namelen", "0", "n", "1", "strlen", "1"), MaxSteps: 50000000})
+			jobs = append(jobs, Job{Harness: "VX_C14_tojson", Params: P("shape", "pow2", "namelen", "0", "n", "1", "strlen", "1"), MaxSteps: 100000000})
 			jobs = append(jobs, Job{Harness: "VX_C14_aggregated"})
 			jobs = append(jobs, Job{Harness: "VX_C14_tojson", Params: P("shape", "big", "namelen", "0", "n", "1", "strlen", "1"), MaxSteps: 400000000})
+			jobs = append(jobs, c14rowCountJobs(tier)...)
 			// ReadJSON of what ToJSON wrote (behind the reference decoder)
 			rj := []string{"int,bool", "float", "enum,float", "string", "bool,enum,int,float"}
 			if tier == "thorough" {
